@@ -199,6 +199,8 @@ def _modes_for(kind, env_name):
     if kind in ("ptrnet", "mdam"):
         return ["greedy", "sampling"]
     modes = ["greedy", "sampling", "multisample"]
+    if kind == "nar":
+        modes = ["greedy", "sampling"]  # multi-sample without a forced start is not supported by the NAR decoder
     multi_ok = env_name in P.MULTISTART_ENVS or env_name in ("fjsp", "jssp")
     if kind == "am" and env_name == "mtsp":
         multi_ok = False  # DESIGN 7.17: raises in MTSPContext (reported by C12)
@@ -283,6 +285,9 @@ class C11:
     excluded = [
         ["mdam", "*", "evaluate", "own multi-path decoder without an evaluate mode: clause (i) only"],
         ["ptrnet", "tsp", "multistart/beam/num_samples", "PointerNetworkPolicy ignores these arguments"],
+        ["nar", "tsp/cvrp", "num_samples", "NonAutoregressiveDecoder takes the first step's logits from the "
+         "un-replicated heatmap: num_samples without a forced start raises IndexError (its users, DeepACO/GFACS, "
+         "only use multistart); observation"],
         ["polynet", "*", "select_best / beam_search round trip", "logits depend on the replica slot, which a "
          "best-selected or back-tracked sequence does not carry"],
         ["matnet", "atsp", "round trip on the k-fold expanded batch", "random one-hot embedding is drawn per "
@@ -696,7 +701,8 @@ def _execute_roundtrip(run):
     else:
         if kind not in ("matnet", "polynet"):
             variants.append(("expanded", batchify(td.clone(), k), {}))
-        variants.append(("num_samples", td.clone(), {"num_samples": k}))
+        if kind != "nar":
+            variants.append(("num_samples", td.clone(), {"num_samples": k}))
     if kind == "polynet" and R == B and k > 1:
         variants = []
     ret_e2 = plan["ret_entropy"] or plan["ret_entropy2"]
